@@ -171,6 +171,16 @@ known("F13", ["C15"],
       ["bounded_only_failure", "bounded_result_not_in_unbounded"], "has_yield",
       case("C15", "known", "t0: spawn(1); Lock(m=0); CvWait(cv=0,m=0); NotifyAll(cv=0); Unlock(m=0); join(1) || t1: Yield; NotifyOne(cv=0)", x={"n": 2}))
 
+known("F13c", ["C18"],
+      "same root cause as F13 in a do-while spin loop (`loop { yield_now(); if flag { break } }`): an outcome that needs the yielding "
+      "thread to run between two operations of the writer neither of which conflicts with its own neighbouring operations is never "
+      "explored, because the partial-order reduction treats those operations as independent while the yield (the writer performs "
+      "exactly its pending operation) makes their order matter: main: r0=x3; yield; await x0; r1=x1 || t1: x0=1; x3=1; x2=2; x1=1 "
+      "never yields (r0,r1)=(1,0). Found by the thorough tier (1 of ~900 do-while programs)",
+      ["missing_outcome_yield_placement"], "has_yield",
+      case("C18", "known", "t0: spawn(1); ld(x3,sc); Yield; await(x0,1,sc); ld(x1,sc); await(x1,1,sc); ld(x2,sc) || "
+           "t1: st(x0,1,sc); st(x3,1,sc); st(x2,2,sc); st(x1,1,sc)", cfg={"max_branches": 4000}))
+
 fixed("F14", ["C06", "C10"], "bebf2a3",
       "a block from loom::alloc::alloc that is still tracked when the execution is torn down (leaked, or live while the model panics) "
       "was dropped outside the model: the `Allocation leaked` report aborted the process instead of unwinding",
